@@ -565,7 +565,8 @@ def run(ctx):
             wl_hist[c["workload"]] = wl_hist.get(c["workload"], 0) + 1
             conc_runs += 1
             conc_ops += sum(len(l) for l in c["tasks"])
-            res = run_conc(exe, c, env, spin)
+            # a hang in a class with an open finding is cut short; the insert-only class gets the generous watchdog
+            res = run_conc(exe, c, env, spin, timeout=40 if c["workload"] == "insert-only" else 8)
             if res is None:
                 conc_dead.append((ns, nw, spin, c))
                 continue
